@@ -46,6 +46,9 @@ def nojvp(x):
 defvjp(nojvp, lambda ans, x: lambda g: g)
 
 
+HOOK = [None]     # optional scheduling hook, used by the thread harness (impl_c20.py)
+
+
 class UserFail(Exception):
     pass
 
@@ -93,12 +96,22 @@ def ev(e, env):
         if c > 0:
             return ev(e[2], env)
         return ev(e[3], env)
-    if t == "grad":
+    if t == "grad" or t == "deriv":
         x = ev(e[2], env)
-        return grad(lambda v: ev(e[1], [v] + env))(x)
-    if t == "deriv":
-        x = ev(e[2], env)
-        return make_jvp(lambda v: ev(e[1], [v] + env))(x)(1.0)[1]
+
+        def body(v):
+            if HOOK[0]:
+                HOOK[0]("in")          # just after the trace was entered
+            return ev(e[1], [v] + env)
+        if HOOK[0]:
+            HOOK[0]("pre")             # just before the trace is entered
+        if t == "grad":
+            r = grad(body)(x)
+        else:
+            r = make_jvp(body)(x)(1.0)[1]
+        if HOOK[0]:
+            HOOK[0]("post")            # just after the trace was exited
+        return r
     if t == "fail":
         raise UserFail()
     if t == "try":
